@@ -68,7 +68,7 @@ class Check(FormulaCheck):
             '(|x|<=700 for EXP/SINH/COSH; points within 1e-6 of a singularity excluded), as number, numeric text or logical; or one identity formula; '
             'or one PV(rate,periods,payment,future,type); or one RAND/RANDBETWEEN draw. non-trivial = compared with the reference / identity / residual; '
             'distinct = distinct (function, arguments).')
-    ASSUMPTIONS = ('results beyond 1.79e308 (overflow) are not judged; band 1e-9 relative (absolute below 1)',
+    ASSUMPTIONS = ('results beyond 1.79e308 (overflow) are not judged; band 1e-9 of max(1,|value|) and, wherever the value is an ordinary double, 1e-9 of the value itself',
                    'ACOT on non-positive arguments is judged only through COT(ACOT(x)) = x and |ACOT(x)| <= pi',
                    'outside the domain or for non-numeric text any error code is accepted, never a number',
                    'PV: where (1+r)^n overflows/underflows a double an error is not judged, a number is; RANDBETWEEN with a <= b and an integer between them')
